@@ -237,7 +237,8 @@ def gen_gated(rng, n, exhaustive_len):
     A, B = [b"AAAAAAAA".hex(), b"CCCC".hex()], [b"BBBBBBBB".hex(), b"DDDD".hex()]
     # exhaustive small scope: every schedule over {0,1} of the given length on 2 chunks per direction
     for m in range(1 << exhaustive_len):
-        out.append({"mode": "gated", "up": A, "down": B, "sched": [(m >> i) & 1 for i in range(exhaustive_len)], "counters": bool(m & 1)})
+        out.append({"mode": "gated", "up": A, "down": B, "sched": [(m >> i) & 1 for i in range(exhaustive_len)], "counters": bool(m & 1),
+                    "up_eofl": bool(m & 2), "down_eofl": bool(m & 4)})
     for _ in range(n):
         def chunks(base):
             return [bytes((base + rng.randrange(8)) for _ in range(rng.choice([1, 2, 8, 100, 1000, 32768] if rng.random() < 0.1 else [1, 2, 8, 100])))
@@ -251,7 +252,23 @@ def gen_gated(rng, n, exhaustive_len):
             sched = [0, 1, 1, 0] * (total // 4 + 1)
         else:
             sched = [rng.choice([0, 0, 0, 1, 1, 1, 2, 5]) for _ in range(rng.randrange(2 * total + 1))]
-        out.append({"mode": "gated", "up": up, "down": down, "sched": sched, "counters": rng.random() < 0.5})
+        out.append({"mode": "gated", "up": up, "down": down, "sched": sched, "counters": rng.random() < 0.6,
+                    "up_eofl": rng.random() < 0.5, "down_eofl": rng.random() < 0.5})
+    return out
+
+
+def gen_fwdcut(rng, n):
+    """real forwarder between a chunk-oracle local source (optionally last chunk together with io.EOF) and a real
+    FrameStream; traffic counters configured (both directions) in most cases"""
+    out = []
+    sizes = [0, 1, 2, 100, 4103, 32767, 32768, 32769, MAXF, MAXF + 1, 100007]
+    for i in range(n):
+        ln = rng.choice(sizes + [rng.randrange(3000)])
+        cuts = rng.choice([[], [rng.choice([1, 7, 100, 5000, 32768, 40000]) for _ in range(rng.randrange(1, 12))],
+                           [1] * min(ln, 40)])
+        resp = [rand_bytes(rng, rng.choice([1, 8, 1000, 40000, MAXF + 5])).hex() for _ in range(rng.choice([0, 1, 1, 2, 3]))]
+        out.append({"mode": "fwdcut", "wire": rand_bytes(rng, ln).hex(), "cuts": cuts, "up_eofl": i % 2 == 0,
+                    "counters": rng.random() < 0.8, "down": resp})
     return out
 
 
@@ -305,7 +322,14 @@ def case_values(c, o):
             return []   # the replay hung: already reported by the predicate
         g = lambda k: hb(o.get(k) or "")
         return [[3, [hb(x) for x in c["up"]], [hb(x) for x in c["down"]], list(c["sched"]),
-                 g("up_mid"), g("down_mid"), g("up_final"), g("down_final")]]     # real goroutine interleaving: frame order is not reproducible, Go-side predicate only
+                 g("up_mid"), g("down_mid"), g("up_final"), g("down_final"), bool(c.get("up_eofl")), bool(c.get("down_eofl")),
+                 bool(c.get("counters")), max(0, o.get("sent", 0)), max(0, o.get("recv", 0))]]
+    if c["mode"] == "fwdcut":
+        if o.get("prop_key") == "forwarder-hang":
+            return []
+        g = lambda k: hb(o.get(k) or "")
+        return [[4, hb(c["wire"]), list(c["cuts"]), bool(c.get("up_eofl")), [hb(x) for x in c["down"]], g("up_final"), g("down_final"),
+                 bool(c.get("counters")), max(0, o.get("sent", 0)), max(0, o.get("recv", 0)), b"fwdcut-tunnel"]]     # real goroutine interleaving: frame order is not reproducible, Go-side predicate only
     if c["mode"] == "stream":
         ops = []
         for op in c["ops"]:
@@ -367,6 +391,11 @@ def shrink(binary, case, key):
                     if fails(t):
                         cur, changed = t, True
                         break
+        if cur["mode"] == "fwdcut" and len(cur.get("wire", "")) > 2:
+            for t in (dict(cur, wire=cur["wire"][:(len(cur["wire"]) // 4) * 2]), dict(cur, wire=cur["wire"][:-2])):
+                if fails(t):
+                    cur, changed = t, True
+                    break
         if cur["mode"] == "dec" and len(cur.get("wire", "")) > 2:
             t = dict(cur, wire=cur["wire"][:-2])
             if fails(t):
@@ -437,6 +466,7 @@ def run(ctx, only_cases=None):
         cases += gen_fwd(rng, 100 if thorough else 12)
         cases += gen_gated(rng, 2000 if thorough else 200, 11 if thorough else 7)
         cases += gen_duplex(rng, thorough)
+        cases += gen_fwdcut(rng, 400 if thorough else 60)
     outs = vlib.run_harness(binary, cases, timeout=1500)
     if only_cases is None:
         wires = [o["wire"] for c, o in zip(cases, outs) if c["mode"] in ("enc", "stream") and 0 < o["wire_len"] < 3000]
@@ -538,6 +568,12 @@ def run(ctx, only_cases=None):
             dist["forwarder_gated_schedules"] = dist.get("forwarder_gated_schedules", 0) + 1
             if c["up"] and c["down"] and 0 in c["sched"] and 1 in c["sched"]:
                 nontrivial.add(h)
+        elif c["mode"] == "fwdcut":
+            dist["forwarder_oracle_source_runs"] = dist.get("forwarder_oracle_source_runs", 0) + 1
+            dist["forwarder_last_chunk_with_eof"] = dist.get("forwarder_last_chunk_with_eof", 0) + bool(c["up_eofl"] and c["wire"])
+            dist["forwarder_runs_with_counters"] = dist.get("forwarder_runs_with_counters", 0) + bool(c["counters"])
+            if c["wire"] and c["cuts"]:
+                nontrivial.add(h)
         elif c["mode"] == "duplex":
             dist["forwarder_full_duplex_runs"] = dist.get("forwarder_full_duplex_runs", 0) + 1
             dist["forwarder_full_duplex_bytes"] = dist.get("forwarder_full_duplex_bytes", 0) + c["up_len"] + c["down_len"]
@@ -558,7 +594,7 @@ def run(ctx, only_cases=None):
         "evaluations": len(cases), "distinct_nontrivial": len(nontrivial),
         "rule": "cases generated from VERIF_SEED by one PRNG (corpus first): frame lists x chunkings through the real "
                 "WriteFrameToWriter/ReadFrameFromReader; mutated/hostile byte strings through ReadFrameFromReader with MemStats; "
-                "schedules of the two copy loops of runBidirectionalForward replayed through gated doubles (exhaustive for a small scope) and full-duplex streaming through real forwarders/FrameStreams with per-direction content comparison; scripts of Write/CloseWrite/Close of several tunnels + raw WriteFrame + raw bytes on one loopback TCP connection read "
+                "schedules of the two copy loops of runBidirectionalForward replayed through gated doubles (exhaustive for a small scope; sources ending with a bare EOF or with the last chunk together with io.EOF; traffic counters compared with the model), the forwarder between a chunk-oracle local source and a real FrameStream, and full-duplex streaming through real forwarders/FrameStreams with per-direction content comparison; scripts of Write/CloseWrite/Close of several tunnels + raw WriteFrame + raw bytes on one loopback TCP connection read "
                 "by a real FrameStream with generated buffer sizes; id strings through TunnelIDFromString. distinct = distinct case "
                 "JSON; non-trivial = (enc) >=2 frames under a non-empty chunk list, (dec) >=1 frame decoded before the error or a "
                 "chunked input of >=2 headers, (stream) >=2 data reads AND foreign/unknown frames or a write larger than one frame. "
